@@ -178,6 +178,9 @@ func (w *verifC18) signAccount(acct string, signer *verifKey, ts time.Time, rev 
 }
 
 func verifRunC18(c *verifsim.Ctx) {
+	for _, p := range verifProbesC18 {
+		c.Add(p, 0) // so that a probe that is never reached shows up as 0
+	}
 	keys := verifKeys()
 	w := &verifC18{c: c, keys: keys, led: verifNewLedger(),
 		owner: map[string]string{"root": "canonical", "store": "canonical", "trusted2": "canonical",
@@ -928,3 +931,5 @@ func (w *verifC18) findStored() {
 }
 
 var _ = bytes.Equal
+
+var verifProbesC18 = []string{"probe:accepted-exactly-at-since", "probe:accepted-under-constraints", "probe:account-key-revision-changed-window", "probe:altered-rejected", "probe:checked-exactly-at-until", "probe:clock-lands-exactly-on-boundary", "probe:find-after-deliveries", "probe:invalid-rejected", "probe:reframed-signature-accepted", "probe:same-assertion-accepted-then-rejected", "probe:same-assertion-rejected-then-accepted", "probe:timestamp-exactly-at-until", "probe:valid-accepted"}
